@@ -46,7 +46,7 @@ def run(ctx):
                 ck = f.calls(r'HashMap::<[^>]*>::contains_key$')
                 gate = []
                 for cb, ct in ck:
-                    ce = f.call_expr(cb)
+                    ce = f.call_val(cb)
                     if peel(f.argv(cb, 1)) == peel(f.argv(bi, 1)) == ('param', 1):
                         gate += f.gate_edges(lambda d, v, vals: (d == ce and v == 0) or
                                              (d == ('un', 'Not', ce) and truthy(v, vals)))
